@@ -8,7 +8,8 @@ L5 model for C14: derived attributes.
   unbroadcast, broadcast together, apply, repair shape, broadcast to the "original shape");
 * expression trees over component ids, constants and an arbitrary binary operator;
 * the component table of a `Data` object (ordered dict), `Data.__getitem__` on derived components,
-  `remove_component` with its recursion as coded, `update_id` as coded + the F14 repair;
+  `remove_component` with its recursion as coded, `reorder_components` as coded (the table order is
+  the real component order), `update_id` as coded + the F14 repair;
 * the text-expression grammar of the `ParsedCommand` family (tokens, printer, parser, evaluator).
 
 Core Lean only.  `Impl` = the functions named after the Python code, `Spec` = `spec*`.
@@ -534,6 +535,29 @@ def specRemove (t : Table κ ω α) (k : κ) (outKeys : List κ) : Bool :=
   if t.keys.contains k then
     outKeys == (t.keys.filter fun x => !((depClosure t k).contains x))
   else outKeys == t.keys
+
+/-! ### `reorder_components` -/
+
+/-- `(key, self._components[key]) for key in component_ids` (a key that is not in the table would
+raise `KeyError`; the validation of `reorder_components` excludes it). -/
+def Table.pick (t : Table κ ω α) (ks : List κ) : List (κ × Comp κ ω α) :=
+  ks.filterMap fun k => (t.find k).map fun c => (k, c)
+
+/-- **Impl**: `Data.reorder_components(component_ids)` as coded: `ValueError` (`none`) unless the
+list has as many entries as the table and the same *set* of identifiers; nothing happens when it is
+the current order; otherwise `self._components = OrderedDict((key, self._components[key]) for key
+in component_ids)`.  The table order after this call is the order every later
+`derived_components` / `remove_component` / `update_id` iterates in. -/
+def reorderComps (t : Table κ ω α) (ks : List κ) : Option (Table κ ω α) :=
+  if ks.length ≠ t.length then none
+  else if !(ks.all t.keys.contains && t.keys.all ks.contains) then none
+  else if ks = t.keys then some t
+  else some (Table.ofPairs (t.pick ks))
+
+/-- **Spec** of `reorder_components(ks)`: when `ks` is a rearrangement of the identifiers of the
+dataset, the same components listed in the order `ks`; `ValueError` otherwise. -/
+def specReorder (t : Table κ ω α) (ks : List κ) : Option (Table κ ω α) :=
+  if ks.isPerm t.keys then some (t.pick ks) else none
 
 /-! ### `update_id` -/
 
